@@ -561,6 +561,48 @@ def _dnf(e):
     return [[e]]
 
 
+def _acceptance(mod, f, depth=0):
+    """The boolean expression a predicate returns True for: `if c: return True`
+    ... `return e` is `c or ... or e`; calls of other one-expression predicates
+    of the module are replaced by what they return."""
+    from .loopir import _subst_names_x
+    parts = []
+    body = [s_ for s_ in f.body if not (s_.k == "expr" and s_.a and
+                                        getattr(s_.a[0], "k", "") == "str")]
+    for i, st in enumerate(body):
+        last = i == len(body) - 1
+        if st.k == "return" and st.a[0] is not None and last:
+            parts.append(st.a[0])
+        elif st.k == "if" and len(st.a[0]) == 1 and not st.a[1] and not last and \
+                len(st.a[0][0][1]) == 1 and st.a[0][0][1][0].k == "return" and \
+                st.a[0][0][1][0].a[0] is not None and \
+                pp(st.a[0][0][1][0].a[0]) in ("True", "1"):
+            parts.append(st.a[0][0][0])
+        else:
+            return None
+    if not parts:
+        return None
+    e = parts[0] if len(parts) == 1 else X("boolop", "or", parts, line=f.line)
+
+    def inline(x):
+        if isinstance(x, X):
+            if x.k == "call" and x.a[0].k == "name" and x.a[0].a[0] in mod.funcs and \
+                    depth < 3 and mod.funcs[x.a[0].a[0]] is not f:
+                g = mod.funcs[x.a[0].a[0]]
+                if len(g.args) == len(x.a[1]):
+                    sub = _acceptance(mod, g, depth + 1)
+                    if sub is not None:
+                        return _subst_names_x(sub, {pn: inline(a) for (pn, _), a
+                                                    in zip(g.args, x.a[1])})
+            return X(x.k, *[inline(v) for v in x.a], line=x.line)
+        if isinstance(x, list):
+            return [inline(v) for v in x]
+        if isinstance(x, tuple):
+            return tuple(inline(v) for v in x)
+        return x
+    return inline(e)
+
+
 def w9(run: Run, cy: CyProgram):
     """The acceptance conditions of the geographical rewiring imply what they
     promise.  A swap replaces the links (s,t), (k,l) by (s,l), (t,k).  Reading
@@ -577,13 +619,17 @@ def w9(run: Run, cy: CyProgram):
     for f in sorted(mod.funcs.values(), key=lambda f: f.name):
         if not f.name.startswith(("cond_len", "cond_deg")):
             continue
-        rets = [x for x in walk(f.body) if isinstance(x, X) and x.k == "return"
-                and x.a[0] is not None]
-        if len(rets) != 1 or len(f.args) < 5:
-            raise AnalysisError(f"{f.where}: condition {f.name} has no single return")
-        if pp(rets[0].a[0]) in ("True", "1"):
+        if len(f.args) < 5:
+            raise AnalysisError(f"{f.where}: condition {f.name}: unexpected signature")
+        accept = _acceptance(mod, f)
+        if accept is None:
+            run.unknowns.append(f"W9: {f.where}: the acceptance condition of {f.name} "
+                                f"is not a boolean expression of link tests; not decided")
+            continue
+        if pp(accept) in ("True", "1"):
             # "no condition": promises nothing; W10 decides where it may be used
             continue
+        rets = [X("return", accept, line=f.line)]
         s_, t_, k_, l_ = [a for a, _ in f.args][-4:]
         arr = f.args[0][0]
         kind = "deg" if f.name.startswith("cond_deg") else "len"
